@@ -562,4 +562,145 @@ var prop = stats.Prop(R, "script", gen1, check)
 
 func TestScript(t *testing.T) { rapid.Check(t, prop) }
 
+// Large tolerance: a tolerance of several seconds, as a real installation configures it, and a source that
+// is quiet for a good part of it - seconds, not milliseconds - in the middle of a frame or between two.
+// Everything before and after the silence must be delivered.
+type LargeCase struct {
+	Stream  gen.Stream `json:"stream"`
+	TolMs   uint       `json:"timeout_ms"`
+	WaitMs  uint       `json:"wait_ms"`
+	QuietAt int        `json:"quiet_at_byte"`
+	QuietMs int        `json:"quiet_ms"`
+	Kind    string     `json:"kind"`
+}
+
+type quietReader struct {
+	mu         sync.Mutex
+	data       []byte
+	pos        int
+	quietAt    int
+	quiet      time.Duration
+	kind       string
+	quietSince time.Time
+	faultTimes []time.Time
+}
+
+func (r *quietReader) Read(p []byte) (int, error) {
+	r.mu.Lock()
+	defer r.mu.Unlock()
+	fault := func() (int, error) {
+		r.faultTimes = append(r.faultTimes, time.Now())
+		if r.kind == "timeout" {
+			return 0, errTimeout
+		}
+		return 0, io.EOF
+	}
+	if r.pos >= len(r.data) {
+		return fault()
+	}
+	n := len(p)
+	if r.pos < r.quietAt {
+		if n > r.quietAt-r.pos {
+			n = r.quietAt - r.pos
+		}
+	} else if r.pos == r.quietAt {
+		if r.quietSince.IsZero() {
+			r.quietSince = time.Now()
+		}
+		if time.Since(r.quietSince) < r.quiet {
+			return fault()
+		}
+	}
+	if n > len(r.data)-r.pos {
+		n = len(r.data) - r.pos
+	}
+	copy(p, r.data[r.pos:r.pos+n])
+	r.pos += n
+	return n, nil
+}
+
+func checkLarge(c LargeCase, o *stats.Obs) error {
+	input := c.Stream.Bytes()
+	if c.TolMs < 3000 || c.QuietMs <= 0 || c.QuietMs > int(c.TolMs)/2 || c.QuietAt < 0 || c.QuietAt > len(input) {
+		o.Skip = true
+		return nil
+	}
+	want := drive.Run(handler.New(drive.StartTime, slog.LevelDebug), input, drive.Options{InCap: 4096, OutCap: 64})
+	if want.Panic != "" || !want.Closed {
+		o.Skip = true
+		return nil
+	}
+	cfg := &jsonconfig.Config{TimeoutOnEOFMilliSeconds: c.TolMs, WaitTimeOnEOFMilliseconds: c.WaitMs}
+	msgChan := make(chan handler.Message, 4)
+	fh := filehandler.New(msgChan, cfg)
+	rd := &quietReader{data: input, quietAt: c.QuietAt, quiet: time.Duration(c.QuietMs) * time.Millisecond, kind: c.Kind}
+	ret := make(chan error, 1)
+	go func() { ret <- fh.Handle(drive.StartTime, bufio.NewReaderSize(rd, 64)) }()
+	var got []handler.Message
+	closed := false
+	deadline := time.After(time.Duration(4*c.TolMs)*time.Millisecond + 30*time.Second)
+collect:
+	for {
+		select {
+		case m, ok := <-msgChan:
+			if !ok {
+				closed = true
+				break collect
+			}
+			got = append(got, m)
+		case <-deadline:
+			break collect
+		}
+	}
+	rd.mu.Lock()
+	ft := append([]time.Time{}, rd.faultTimes...)
+	rd.mu.Unlock()
+	if !closed {
+		o.Key = "not-closed"
+		return fmt.Errorf("tolerance %d ms: message channel not closed within %d s of the start (source silent for good at the end)", c.TolMs, 4*c.TolMs/1000+30)
+	}
+	select {
+	case <-ret:
+	case <-time.After(10 * time.Second):
+		o.Key = "no-return"
+		return fmt.Errorf("Handle did not return within 10 s after the channel was closed")
+	}
+	if len(ft) >= 2 && ft[1].Sub(ft[0]) > time.Duration(c.TolMs)*time.Millisecond {
+		o.Skip = true // the machine stalled for longer than the tolerance between the first two reads of the silence
+		return nil
+	}
+	for k := 0; k < len(got) || k < len(want.Msgs); k++ {
+		if k >= len(got) {
+			o.Key = "lost-after-long-silence"
+			return fmt.Errorf("tolerance %d ms, source silent (%s) for %d ms before byte %d of %d: %d messages delivered, the uninterrupted stream gives %d (first missing: type %d %x)", c.TolMs, c.Kind, c.QuietMs, c.QuietAt, len(input), len(got), len(want.Msgs), want.Msgs[k].MessageType, want.Msgs[k].RawData)
+		}
+		if k >= len(want.Msgs) || got[k].MessageType != want.Msgs[k].MessageType || !bytes.Equal(got[k].RawData, want.Msgs[k].RawData) {
+			o.Key = "wrong-after-long-silence"
+			return fmt.Errorf("tolerance %d ms, source silent (%s) for %d ms before byte %d of %d: message %d is type %d %x, the uninterrupted stream gives something else", c.TolMs, c.Kind, c.QuietMs, c.QuietAt, len(input), k, got[k].MessageType, got[k].RawData)
+		}
+	}
+	o.NonTrivial = true
+	o.Class(fmt.Sprintf("tolerance-%ds/silence-%dms", c.TolMs/1000, c.QuietMs))
+	return nil
+}
+
+func genLarge(t *rapid.T) LargeCase {
+	c := LargeCase{TolMs: rapid.SampledFrom([]uint{4295, 5000, 5000}).Draw(t, "tolMs"), WaitMs: uint(rapid.IntRange(0, 2).Draw(t, "waitMs")),
+		Kind: rapid.SampledFrom([]string{"eof", "timeout"}).Draw(t, "kind"), QuietMs: rapid.SampledFrom([]int{1500, 2000}).Draw(t, "quietMs")}
+	off := 0
+	var at []int
+	for i := 0; i < 3; i++ {
+		f := gen.ValidFrame(t, 40)
+		c.Stream.Segs = append(c.Stream.Segs, gen.Segment{Kind: "valid", Data: f})
+		at = append(at, off+len(f)/2, off+len(f))
+		off += len(f)
+	}
+	c.QuietAt = rapid.SampledFrom(at[:len(at)-1]).Draw(t, "quietAt")
+	return c
+}
+
+var propLarge = stats.Prop(R, "large-tolerance", genLarge, checkLarge)
+
+func TestLargeTolerance(t *testing.T) { rapid.Check(t, propLarge) }
+
 func TestReplay(t *testing.T) { R.Replay(t) }
